@@ -115,7 +115,11 @@ class C14(Property):
         ("antismash/common/hmmscan_refinement.py", "HMMResult.to_json"),
         ("antismash/common/hmmscan_refinement.py", "HMMResult.from_json"),
         ("antismash/common/hmmscan_refinement.py", "HMMResult.__eq__"),
-        (DI, "CDSResult.to_json"), (DI, "CDSResult.from_json"),
+        (DI, "CDSResult.to_json"), (DI, "CDSResult.from_json"), (DI, "NRPSPKSDomains.add_to_record"),
+        ("antismash/common/secmet/features/module.py", "ModuleType"),
+        ("antismash/common/secmet/features/module.py", "Module.__init__"),
+        ("antismash/common/secmet/features/module.py", "Module.to_biopython"),
+        ("antismash/common/secmet/features/module.py", "Module.from_biopython"),
     ]
     RULE = ("domain sequences over the full alphabet of the tree under test (every label of CLASSIFICATIONS, "
             "PKS_KS with trans-AT / iterative / other / stacked subtypes): (1) exhaustive strings over a "
@@ -129,10 +133,11 @@ class C14(Property):
             "HMMResult trees (depth <= 3, overlapping / touching / disjoint internal hits) through the constructor, "
             "detailed_names, to_json/from_json and Component; a strided enumeration of all ordered pairs of strings "
             "of length <= 2 as two-gene chains on both strands through generate_domains; chains with domain-less "
-            "genes, region borders and strand changes at the cuts. "
+            "genes, docking-only genes, region borders and strand changes at the cuts; kind `feature`: 1-3 genes "
+            "through generate_domains + add_to_record, every aSModule feature through to_biopython/from_biopython. "
             "non-trivial = at least two modules or one complete module (build/replay), a merge that happened or "
             "was refused after passing the strand/emptiness guards (pair), at least one cross-gene merge (chain), a "
-            "tree with internal hits (hmm)")
+            "tree with internal hits (hmm), an incomplete module with a starter/final role (feature)")
     TRUSTED = [
         "HMMResult e-value / bitscore are Python floats, carried as opaque integers in the Hmm model (kind `hmm` "
         "uses integral values); the rest of HMMResult (internal hits, overlap check, detailed_names, JSON) is modelled",
@@ -140,7 +145,10 @@ class C14(Property):
         "`sorted(..., key=query_start)` is a stable sort (modelled by Lean's stable List.mergeSort)",
         "iteration order of the set DOUBLE_TRANSPORTER_CASES (irrelevant while all cases have one length: "
         "table fact `dt_cases_len` is re-proved on every run)",
-        "get_monomer, Module.start/end and the feature creation in add_to_record are outside the statement",
+        "get_monomer and Module.start/end are outside the statement; of the aSModule feature the location, the generic "
+        "Feature qualifiers and monomer pairings are not modelled (kind `feature` compares them on the implementation only)",
+        "generate_domain_features (names/locations of the domain features) is exercised, not modelled: the model takes "
+        "the domain names from the implementation's features",
         "in kind `chain` find_domains / find_subtypes / find_ab_motifs / annotate_domains are patched out "
         "(no HMMER in the sandbox); the loop itself, build and combine are the real code",
     ]
@@ -346,6 +354,38 @@ class C14(Property):
         yield {"kind": "label", "label": sorted(mi.KETOSYNTHASES)[0], "subtypes": ["Trans-AT-KS", "x"]}
 
         scale = 10 if deep else 1
+        # the saved form in the record: generate_domains -> add_to_record -> Module.to_biopython -> from_biopython
+        named = [["PCP", "Thioesterase"], ["ACP", "TD"], ["Condensation_Starter", "AMP-binding"], ["CAL_domain", "PKS_KR"],
+                 ["AMP-binding", "PCP"], ["SAT", "PKS_AT"], ["PKS_KS", "PKS_AT", "ACP", "Thioesterase"],
+                 ["Condensation_Starter", "AMP-binding", "PCP", "Thioesterase"], ["AMP-binding"], ["PCP", "Epimerization"]]
+        for names in named:
+            for strand in (1, -1):
+                yield {"kind": "feature", "genes": [{"name": "gene", "strand": strand, "region": 0, "motifs": False,
+                                                      "domains": [[n, [], 10 + 100 * i, 90 + 100 * i]
+                                                                  for i, n in enumerate(names)]}]}
+        for _ in range(150 * scale):
+            n = rng.choice([1, 1, 2, 2, 3])
+            strand = rng.choice([1, -1])
+            if n > 1 and rng.random() < 0.6:
+                syms = self.shaped(rng, rng.choice([1, 2, 3]))
+                cuts = sorted(rng.randint(0, len(syms)) for _ in range(n - 1))
+                pieces = [syms[i:j] for i, j in zip([0] + cuts, cuts + [len(syms)])]
+                if strand == -1:
+                    pieces.reverse()
+            else:
+                pieces = [self.rand_string(rng, 8) for _ in range(n)]
+            genes = []
+            for i, piece in enumerate(pieces):
+                doms = self.place(rng, piece, scramble=False)
+                seen, uniq = set(), []
+                for d in doms:            # domain features are keyed by the hit: no exact duplicates
+                    key = (d[0], d[2], d[3])
+                    if key not in seen and d[3] > d[2]:
+                        seen.add(key)
+                        uniq.append(d)
+                genes.append({"name": f"g{i}", "strand": strand if rng.random() < 0.9 else -strand, "region": 0,
+                              "motifs": False, "domains": uniq})
+            yield {"kind": "feature", "genes": genes}
         # HMMResult trees: constructor overlap check, detailed_names, to_json/from_json, Component on top
         for _ in range(600 * scale):
             yield {"kind": "hmm", "tree": self.rand_tree(rng, 0), "locus": "" if rng.random() < 0.03 else "g"}
@@ -471,6 +511,11 @@ class C14(Property):
                 elif r < 0.45:
                     for g in genes[cut:]:
                         g["strand"] = -strand
+                elif r < 0.65:
+                    # a gene with hits but no module of its own: only docking / COM domains
+                    dock = [(self.cls(rng, "ignore"), []) for _ in range(rng.choice([1, 1, 2]))]
+                    genes.insert(cut, {"name": "dock", "strand": strand, "region": 0, "motifs": rng.random() < 0.3,
+                                       "domains": self.place(rng, dock, scramble=False)})
             else:
                 for i in range(n):
                     g = self.gene(rng, f"g{i}", strand if rng.random() < 0.85 else -strand, 6,
@@ -508,6 +553,53 @@ class C14(Property):
                  c.is_special(), c.is_fused_starter(), c.is_pks_specific(), c.is_nrps_specific()]
         assert c.subtypes == case["subtypes"]
         return {"classification": classification, "flags": [bool(f) for f in flags], "subtype": c.subtype}
+
+    def _impl_feature(self, case: Dict[str, Any]) -> Dict[str, Any]:
+        from unittest.mock import patch
+        from antismash.common.secmet.features.module import Module as ModuleFeature
+        from antismash.common.secmet.test.helpers import DummyCDS, DummyRecord, DummyRegion, DummySubRegion
+        from antismash.detection.nrps_pks_domains import domain_identification as di
+        genes = case["genes"]
+        longest = max([d[3] for g in genes for d in g["domains"]] + [10])
+        width = 3 * (longest + 20)
+        record = DummyRecord(seq="A" * (width * (len(genes) + 1)))
+        for i, g in enumerate(genes):
+            record.add_cds_feature(DummyCDS(locus_tag=g["name"], start=i * width + 30, end=i * width + 30 + 3 * (longest + 5),
+                                            strand=g["strand"], translation="M" * (longest + 5)))
+        sub = DummySubRegion(start=0, end=width * len(genes))
+        record.add_subregion(sub)
+        record.add_region(DummyRegion(candidate_clusters=[], subregions=[sub]))
+        domains = {g["name"]: [make_domain(d) for d in g["domains"]] for g in genes if g["domains"]}
+        with patch.object(di, "get_fasta_from_features", return_value=""), \
+                patch.object(di, "find_domains", return_value=domains), \
+                patch.object(di, "find_subtypes", return_value={}), \
+                patch.object(di, "find_ab_motifs", return_value={}), \
+                patch.object(di, "get_database_path", return_value=""):
+            results = di.generate_domains(record)
+        results.add_to_record(record)
+
+        def describe(m: Any) -> Dict[str, Any]:
+            return {"domains": [[d.get_name(), d.locus_tag, int(d.location.strand)] for d in m.domains],
+                    "type": str(m.module_type), "complete": bool(m.is_complete()), "starter": bool(m.is_starter_module()),
+                    "final": bool(m.is_final_module()), "iterative": bool(m.is_iterative()),
+                    "parents": list(m.parent_cds_names)}
+
+        feats = []
+        for m in record.get_modules():
+            bio = m.to_biopython()
+            assert len(bio) == 1
+            quals = sorted([k, (None if v is None else [str(x) for x in v])] for k, v in bio[0].qualifiers.items()
+                           if k != "tool")
+            try:
+                again = ModuleFeature.from_biopython(bio[0], record=record)
+                rebuilt: Any = describe(again)
+                same_location = str(again.location) == str(m.location) and again.monomers == m.monomers
+            except Exception as exc:  # pylint: disable=broad-except
+                rebuilt, same_location = {"err": err_kind(exc)}, False
+            feats.append({"original": describe(m), "rebuilt": rebuilt, "same_location": same_location, "quals": quals,
+                          "domains": [[d.get_name(), d.locus_tag, int(d.location.strand),
+                                       int(d.protein_location.start), int(d.protein_location.end)] for d in m.domains]})
+        return {"features": feats}
 
     def _impl_hmm(self, case: Dict[str, Any]) -> Dict[str, Any]:
         from antismash.common.hmmscan_refinement import HMMResult
@@ -637,6 +729,9 @@ class C14(Property):
             line.update(label=case["label"], subtypes=case["subtypes"])
         elif kind == "hmm":
             line.update(tree=case["tree"], locus=case["locus"])
+        elif kind == "feature":
+            line.update(genes=case["genes"], impl_features=[{"domains": f["domains"], "quals": f["quals"]}
+                                                            for f in obs.get("features", [])])
         elif kind == "build":
             line.update(name=case["name"], domains=case["domains"], impl_modules=spec_view(obs.get("modules", [])))
         elif kind == "replay":
@@ -683,7 +778,7 @@ class C14(Property):
             return all(c[0] in alpha and c[4] for c in case["comps"])
         if case["kind"] == "pair":
             return all(g["name"] and all(d[0] in alpha for d in g["domains"]) for g in (case["a"], case["b"]))
-        if case["kind"] == "chain":
+        if case["kind"] in ("chain", "feature"):
             return all(g["name"] and all(d[0] in alpha for d in g["domains"]) for g in case["genes"])
         return True
 
@@ -707,6 +802,36 @@ class C14(Property):
                 corr = False
             return Judgement(corr, True, nontrivial=obs.get("classification") is not None, tags=("label",),
                              detail="" if corr else f"predicates differ: impl {obs} model {model}")
+
+        if kind == "feature":
+            if "err" in obs or "err" in model:
+                corr = obs.get("err") == model.get("err")
+                return Judgement(corr, "err" not in obs or not in_domain, in_scope=in_domain, tags=("feature", "err"),
+                                 detail=f"implementation {obs.get('err', 'ok')} ({obs.get('msg', '')}) vs model {model.get('err', 'ok')}")
+            problems: List[str] = []
+            diffs: List[str] = []
+            if len(obs["features"]) != model["count"]:
+                diffs.append(f"{len(obs['features'])} features for {model['count']} reported modules")
+            for i, (f, mf) in enumerate(zip(obs["features"], model["features"])):
+                if f["rebuilt"] != f["original"] or not f["same_location"]:
+                    problems.append(f"feature{i}: rebuilt from its saved form {f['rebuilt']} differs from the original "
+                                    f"{f['original']}")
+                mm = mf["model"]
+                if "err" in mm:
+                    diffs.append(f"feature{i}: {mm['err']}")
+                else:
+                    if any(f["original"][k] != mm[k] for k in f["original"]):
+                        diffs.append(f"feature{i}: model feature {mm} vs {f['original']}")
+                    if sorted(mm["quals"]) != f["quals"]:
+                        diffs.append(f"feature{i}: qualifiers {f['quals']} vs model {sorted(mm['quals'])}")
+                if mf["reread"] != f["rebuilt"]:
+                    diffs.append(f"feature{i}: from_biopython {f['rebuilt']} vs model {mf['reread']}")
+            roles = [f for f in obs["features"] if not f["original"]["complete"]
+                     and (f["original"]["starter"] or f["original"]["final"])]
+            return Judgement(not diffs, not problems, in_scope=in_domain, nontrivial=bool(roles),
+                             tags=("feature", f"features{min(len(obs['features']), 4)}",
+                                   "incomplete-with-role" if roles else "no-incomplete-role"),
+                             detail=("spec: " + "; ".join(problems[:3])) if problems else "; ".join(diffs[:3]))
 
         if kind == "hmm":
             if "err" in obs or "err" in model:
@@ -874,7 +999,7 @@ class C14(Property):
                 ds = case[key]["domains"]
                 for i in range(len(ds)):
                     yield dict(case, **{key: dict(case[key], domains=ds[:i] + ds[i + 1:])})
-        elif kind == "chain":
+        elif kind in ("chain", "feature"):
             gs = case["genes"]
             for i in range(len(gs)):
                 if len(gs) > 1:
